@@ -460,8 +460,10 @@ class LowerToIRVisitor(Visitor.DefaultVisitor):
 
                 assert isinstance(value, LinearIR.Value)
 
+                # The result of the store shuffle is the whole updated
+                # vector, not just the components that were assigned
                 si = LinearIR.ShuffleInstruction(
-                    ctx.AdaptType(expr.GetType()),
+                    value.Type,
                     value,
                     ctx.AssignmentValue,
                     indices,
